@@ -359,6 +359,76 @@ def saveFile (v : Vtf) (minor sheetVer : Nat) (asw : Bool) : Except Err (List Na
     | .error e => .error e
     | .ok v' => assemble v' minor sheetVer asw
 
+/-! ## Histories on one live object -/
+
+/-- what the program does to a `VTF` between (and including) saves. -/
+inductive HOp where
+  | clearMips (after : Nat)                    -- `vtf.clear_mipmaps(after=k)`
+  | compute (filt : Nat)                       -- `vtf.compute_mipmaps(FilterMode(filt))`
+  | loadAll                                    -- `vtf.load()`
+  | save (minor sheetVer : Nat) (asw : Bool)   -- `vtf.save(f, version=(7, minor), …)`
+  | frameClear (k : Key)                       -- `frame.clear()`
+  | setData (k : Key) (px : List Nat)          -- `frame.copy_from(bytes)`
+  | setPixel (k : Key) (x y : Int) (px : List Nat)   -- `frame[x, y] = px`
+  | fill (k : Key) (px : List Nat)             -- `frame.fill(r, g, b, a)`
+  | setFmt (fmt : Nat)                         -- `vtf.format = …`
+  | setLowFmt (fmt : Nat)                      -- `vtf.low_format = …`
+deriving Repr
+
+def updFrame (v : Vtf) (k : Key) (g : FrameM → FrameM) : Vtf :=
+  { v with frames := v.frames.map fun (k', fr) => if k' == k then (k', g fr) else (k', fr) }
+
+/-- `frame[x, y] = px`: the frame is loaded first; an index out of range changes nothing else. -/
+def setPixelF (x y : Int) (px : List Nat) (fr : FrameM) : FrameM :=
+  let l := fr.load
+  match frameIndex l.w l.h x y with
+  | some off => { l with data := some ((l.data.getD []).take off ++ px ++ (l.data.getD []).drop (off + 4)) }
+  | none => l
+
+/-- the object after a successful `save`: `compute_mipmaps()` has run, the thumbnail and every
+frame that was written have been loaded. -/
+def afterSave (v' : Vtf) (minor : Nat) : Vtf :=
+  { v' with low := v'.low.load,
+            frames := v'.frames.map fun (k, fr) =>
+              if (fileKeys v'.mipCount v'.frameCount (depthSeq v'.flags minor v'.depth)).contains k
+              then (k, fr.load) else (k, fr) }
+
+/-- one step: the new state, and the bytes written if the step is a save. The state is all there is:
+no step depends on anything but the current contents of the object. -/
+def stepOp (v : Vtf) : HOp → Except Err (Vtf × Option (List Nat))
+  | .clearMips k => .ok (applyClear v k, none)
+  | .compute f =>
+    match applyCompute v f with
+    | .ok v' => .ok (v', none)
+    | .error e => .error e
+  | .loadAll => .ok ({ v with frames := v.frames.map fun (k, fr) => (k, fr.load), low := v.low.load }, none)
+  | .save minor sv asw =>
+    if minor > 5 then .error .version
+    else if minor < 2 ∧ v.depth > 1 then .error .depthVersion
+    else if minor ≥ 3 ∧ hasSheetRes v ∧ sv > 1 then .error .sheetVersion
+    else match applyCompute v 4 with
+      | .error e => .error e
+      | .ok v' =>
+        match assemble v' minor sv asw with
+        | .error e => .error e
+        | .ok bytes => .ok (afterSave v' minor, some bytes)
+  | .frameClear k => .ok (updFrame v k FrameM.clear, none)
+  | .setData k px => .ok (updFrame v k (fun fr => { fr with data := some px, fileData := none }), none)
+  | .setPixel k x y px => .ok (updFrame v k (setPixelF x y px), none)
+  | .fill k px =>
+    .ok (updFrame v k (fun fr => { fr with data := some ((List.replicate (fr.w * fr.h) px).flatten), fileData := none }), none)
+  | .setFmt f => .ok ({ v with fmt := f }, none)
+  | .setLowFmt f => .ok ({ v with lowFmt := f }, none)
+
+/-- run a history; the result of every save in order, stopping at the first error. -/
+def runHistory (v : Vtf) : List HOp → List (Except Err (List Nat))
+  | [] => []
+  | op :: ops =>
+    match stepOp v op with
+    | .error e => [.error e]
+    | .ok (v', none) => runHistory v' ops
+    | .ok (v', some bytes) => .ok bytes :: runHistory v' ops
+
 /-! ## Reading -/
 
 structure View where
